@@ -47,6 +47,36 @@ def check_send(cf, cmd, ndata, spec_fields, step, case):
                             % (step + 1, el, fields.get(el), want), case)
 
 
+_PROPS = {}
+
+
+def property_for(cls):
+    """keyword -> name of the dimse_property of cls bound to that element (found by probing, no name guessing)."""
+    if cls in _PROPS:
+        return _PROPS[cls]
+    out = {}
+    probe = cls()
+    for kw in dg.class_keywords(probe.command_field):
+        vr = refcmd.ELEMENTS[kw][1]
+        sentinel = {'UI': '9.9.9', 'US': 4242, 'AE': 'PROBE', 'AT': [0x00100020]}.get(vr)
+        if sentinel is None:
+            continue
+        setattr(probe.command_set, kw, sentinel)
+        for name in dir(cls):
+            if name.startswith('_') or not isinstance(getattr(cls, name, None), property) or name == 'data_set':
+                continue
+            try:
+                if getattr(probe, name) == sentinel or (vr == 'AT' and getattr(probe, name) is not None and
+                                                        list(getattr(probe, name)) == sentinel):
+                    out[kw] = name
+                    break
+            except Exception:
+                continue
+        setattr(probe.command_set, kw, '')
+    _PROPS[cls] = out
+    return out
+
+
 def run_history(cf, steps, pc_id, M, from_decoded=False, lazy=False):
     """steps: list of {'fields': {...}, 'data': bytes|None}; the SAME message object is re-sent after
     applying each step's field changes and data-set assignment.  lazy=True: the provider consumes the
@@ -64,9 +94,14 @@ def run_history(cf, steps, pc_id, M, from_decoded=False, lazy=False):
         assoc = dg.make_assoc(M, lazy)
         current = {}
         snapshots = []
+        props = property_for(cls)
         for i, stp in enumerate(steps):
-            for kw, v in stp['fields'].items():
-                setattr(msg.command_set, kw, v)
+            for j, (kw, v) in enumerate(sorted(stp['fields'].items())):
+                # alternate between the two public routes: the message's own property and the command data set
+                if kw in props and (i + j + pc_id) % 2 == 0:
+                    setattr(msg, props[kw], v)
+                else:
+                    setattr(msg.command_set, kw, v)
                 current[kw] = v
             msg.data_set = stp['data']
             if lazy:
